@@ -180,7 +180,12 @@ impl Prop for C16 {
         }
         let rot = q.rotation();
         let want_rot = if got < 0.0 { Rotation::Cw } else { Rotation::Ccw };
-        if rot != want_rot {
+        // a bearing of exactly 0 (due north) has no sign: either label is accepted there
+        let signless = got == 0.0;
+        if signless {
+            st.class("bearing_exactly_zero_label_not_checked");
+        }
+        if rot != want_rot && !signless {
             return Err(Failure::new("qibla-rotation", format!("{:?} for {}", want_rot, got), format!("{:?}", rot)));
         }
         // the oracle's own sign must agree as well whenever it is not within tolerance of 0 or 180
@@ -206,7 +211,7 @@ impl Prop for C16 {
         }
         let says_ccw = text.contains("CCW");
         let says_cw = text.contains("CW") && !says_ccw;
-        if (got < 0.0 && !says_cw) || (got >= 0.0 && !says_ccw) {
+        if !signless && ((got < 0.0 && !says_cw) || (got >= 0.0 && !says_ccw)) {
             return Err(Failure::new("qibla-display-label", format!("label {} for {}", if got < 0.0 { "CW" } else { "CCW" }, got), text));
         }
         st.nontrivial(c);
